@@ -51,6 +51,22 @@ def json : P Verdict := do
     if !errs.isEmpty then pure (.specfail (" ;; ".intercalate errs))
     else if canon (ofRegistry reg) != canon j then pure (.diff "model serialisation differs from serde's")
     else pure (.ok (reg.length > 0))
+  | "pos" => do
+    -- the positional form of a whole registry, built by the harness: must be the document `posOfRegistry` writes, and serde must
+    -- read it back as the registry (`C08pos.toRegistry_posOfRegistry` says the model reader does)
+    let reg ← P.registry
+    let j ← pJson
+    let res ← P.tok
+    if canon j != canon (posOfRegistry reg) then pure (.diff "harness and model write different positional documents")
+    else match res with
+    | "panic" => pure (.specfail "C14: deserialising JSON panicked")
+    | "err" => pure (.diff "serde rejects the positional form of a registry; the model reader accepts it")
+    | "ok" => do
+      let r' ← P.registry
+      if r' != reg then pure (.diff "serde reads the positional form back as a different registry")
+      else if toRegistry j != .ok reg then pure (.diff "model reader does not read the positional form back")
+      else pure (.ok (reg.length > 0))
+    | _ => P.fail
   | "de" => do
     let j ← pJson
     let res ← P.tok
